@@ -48,6 +48,7 @@ from redress.policy.decorator import retry as retry_decorator  # noqa: E402
 from redress.policy.types import RetryOutcome, RetryTimeline  # noqa: E402
 from redress.sleep import SleepDecision  # noqa: E402
 from redress.policy.types import AttemptDecision  # noqa: E402
+from redress.config import RetryConfig  # noqa: E402
 
 CLASSES = ["AUTH", "PERMISSION", "PERMANENT", "CONCURRENCY", "RATE_LIMIT", "SERVER_ERROR",
            "TRANSIENT", "UNKNOWN"]
@@ -399,6 +400,20 @@ class Suspend:
         return r
 
 
+class _FalsyCallable:
+    """A callable object whose truth value is False (a cancellation token whose bool() mirrors "cancelled?",
+    an empty schedule, ...): the library must test callbacks with `is None`, never by truthiness."""
+
+    def __init__(self, fn) -> None:
+        self._fn = fn
+
+    def __call__(self, *a, **k):
+        return self._fn(*a, **k)
+
+    def __bool__(self) -> bool:
+        return False
+
+
 class _Deferred:
     """An awaitable that is not a coroutine object."""
 
@@ -674,7 +689,7 @@ class Env:
         def sleeper(d):
             a = self.ask(f"sleeper {lvl} {to_ticks(d)}", "sleeper", {"d": to_ticks(d)})
             self._raise_or(a)
-        return sleeper
+        return _FalsyCallable(sleeper) if (self.wall_seed_bits & 128) else sleeper
 
     def _default_sleep(self, d: float) -> None:
         a = self.ask(f"sleeper default {to_ticks(d)}", "sleeper", {"d": to_ticks(d)})
@@ -823,28 +838,49 @@ def build(env: Env, cfg: LoopCfg) -> Built:
         max_unknown_attempts=cfg.max_unknown,
         per_class_max_attempts={ErrorClass[k]: v for k, v in cfg.per_class.items()} or None,
     )
+    fz = (lambda f: None if f is None else _FalsyCallable(f)) if (env.wall_seed_bits & 256) else (lambda f: f)
+    retry_kwargs["result_classifier"] = fz(retry_kwargs["result_classifier"])
+    if not is_async:                      # (async handler / hook forms are chosen inside make_*)
+        retry_kwargs["sleep"] = fz(retry_kwargs["sleep"])
+        retry_kwargs["before_sleep"] = fz(retry_kwargs["before_sleep"])
     call_kwargs: dict[str, Any] = dict(
-        on_metric=env.on_metric if cfg.has("metric") else None,
-        on_log=env.on_log if cfg.has("log") else None,
+        on_metric=fz(env.on_metric) if cfg.has("metric") else None,
+        on_log=fz(env.on_log) if cfg.has("log") else None,
         operation=cfg.operation,
-        abort_if=env.abort_if if cfg.has("abort_if") else None,
+        abort_if=((_FalsyCallable(env.abort_if) if (env.wall_seed_bits & 32) else env.abort_if)
+                  if cfg.has("abort_if") else None),
         sleep=env.make_handler("call") if cfg.has("c_handler") else None,
         before_sleep=env.make_before_sleep("call") if cfg.has("c_before_sleep") else None,
         sleeper=env.make_sleeper("call") if cfg.has("c_sleeper") else None,
-        on_attempt_start=env.attempt_start if cfg.has("c_attempt_start") else None,
-        on_attempt_end=env.attempt_end if cfg.has("c_attempt_end") else None,
+        on_attempt_start=fz(env.attempt_start) if cfg.has("c_attempt_start") else None,
+        on_attempt_end=fz(env.attempt_end) if cfg.has("c_attempt_end") else None,
     )
     hook_kwargs = dict(
-        on_attempt_start=env.attempt_start if cfg.has("p_attempt_start") else None,
-        on_attempt_end=env.attempt_end if cfg.has("p_attempt_end") else None,
+        on_attempt_start=fz(env.attempt_start) if cfg.has("p_attempt_start") else None,
+        on_attempt_end=fz(env.attempt_end) if cfg.has("p_attempt_end") else None,
     )
     R, P, RP = (AsyncRetry, AsyncPolicy, AsyncRetryPolicy) if is_async else (Retry, Policy, RetryPolicy)
 
+    def construct(cls, with_hooks: bool):
+        """the constructor, or — same configuration — `cls.from_config(RetryConfig(...), classifier=...)`"""
+        hooks = hook_kwargs if with_hooks else {}
+        if (env.wall_seed_bits & 64) and not any(v is not None for v in hooks.values()):
+            rc = RetryConfig(
+                deadline_s=retry_kwargs["deadline_s"], attempt_timeout_s=retry_kwargs.get("attempt_timeout_s"),
+                max_attempts=retry_kwargs["max_attempts"], max_unknown_attempts=retry_kwargs["max_unknown_attempts"],
+                per_class_max_attempts=retry_kwargs["per_class_max_attempts"],
+                default_strategy=retry_kwargs["strategy"], class_strategies=retry_kwargs["strategies"],
+                result_classifier=retry_kwargs["result_classifier"], sleep=retry_kwargs["sleep"],
+                before_sleep=retry_kwargs["before_sleep"], sleeper=retry_kwargs["sleeper"],
+                budget=retry_kwargs["budget"])
+            return cls.from_config(rc, classifier=retry_kwargs["classifier"])
+        return cls(**retry_kwargs, **hooks)
+
     if cfg.kind == "Retry":
-        target = R(**retry_kwargs, **hook_kwargs)
+        target = construct(R, True)
         return Built(target, budget, breaker, call_kwargs, ("call", "execute"))
     if cfg.kind == "Policy":
-        retry = None if cfg.has("no_retry") else R(**retry_kwargs, **hook_kwargs)
+        retry = None if cfg.has("no_retry") else construct(R, True)
         target = P(retry=retry, circuit_breaker=breaker)
         return Built(target, budget, breaker, call_kwargs, ("pcall", "pexecute"))
     if cfg.kind == "RetryPolicy":
@@ -856,7 +892,7 @@ def build(env: Env, cfg: LoopCfg) -> Built:
             for k, v in late.items():
                 setattr(target, k, v)
         else:
-            target = RP(**retry_kwargs)
+            target = construct(RP, False)
         return Built(target, budget, breaker, call_kwargs, ("pcall", "pexecute"))
     if cfg.kind == "decorator":
         # hooks are fixed at decoration time; only call() exists
